@@ -64,6 +64,34 @@ theorem no_body_after_done {cfg : Cfg} {done : Bool} {failed : Option Nat} {s : 
         · revert hb; simp only [inBody]; split <;> simp_all [Loc.critical]
       simp_all
 
+/-- **first sentence, part 3: a later launch of the same job script executes the body exactly when no
+    success marker exists.**  In any reachable quiescent state (every runner process dead by whatever cause, no
+    launcher inside its critical section) a new launch of the script, left alone, (a) with a success marker:
+    never starts the body, exits 0 after 11 steps, leaves the marker; (b) without: starts the body exactly
+    once, completes it, writes the marker and exits 0 (`b` = number of internal points of the body).
+    Under arbitrary interleavings the "only if" direction is `no_body_after_done`. -/
+theorem relaunch_runs_iff_no_done {cfg : Cfg} {done : Bool} {failed : Option Nat} {s : St} (h : Reach cfg done failed s)
+    (hq : ∀ i, i < s.n → (s.procs i).dead ≠ none) (hlq : ∀ l, (s.ls l).holds = false) (b : Nat) :
+    (s.sh.done = true →
+      let s' := runAlone cfg s.n 11 (act cfg s (.spawn .ok b))
+      s'.sh.starts = s.sh.starts ∧ s'.sh.done = true ∧ (s'.procs s.n).dead = some (.code 0) ∧ s'.sh.lock = none) ∧
+    (s.sh.done = false →
+      let s' := runAlone cfg s.n (b + 21) (act cfg s (.spawn .ok b))
+      s'.sh.starts = s.sh.starts + 1 ∧ s'.sh.done = true ∧ (s'.procs s.n).dead = some (.code 0) ∧
+      (s'.procs s.n).completed = true ∧ s'.sh.lock = none) := by
+  have hl := quiescent_lock_free h hq hlq
+  constructor
+  · intro hd
+    have := solo_done cfg s.n s.sh .ok b hl hd
+    simp only [runAlone_eq cfg s.n 11 (act cfg s (.spawn .ok b)) (by simp [act])]
+    simp [act, upd]
+    simp_all
+  · intro hd
+    have := solo_run_ok cfg s.n s.sh b hl hd
+    simp only [runAlone_eq cfg s.n (b + 21) (act cfg s (.spawn .ok b)) (by simp [act])]
+    simp [act, upd]
+    simp_all
+
 /-- **at most one success**: at most one process ever writes the success marker, and none does when
     the directory already had one (used by C05 and C11). -/
 theorem at_most_one_success {cfg : Cfg} {done : Bool} {failed : Option Nat} {s : St}
@@ -102,6 +130,44 @@ theorem signal_in_body_marks_failed {cfg : Cfg} {done : Bool} {failed : Option N
   have := inv.sigBody2 i hi hs hw
   exact ⟨this.1, this.2.1⟩
 
+/-- **second sentence, executable form**: SIGTERM or SIGINT delivered to a process that is running the body
+    (at any internal point), the process then running to its end: exit status 1, failure marker `1`
+    (`handle_error` runs twice: once from the handler, once from `except SystemExit`), no success marker, pid
+    file removed, lock released. -/
+theorem signal_in_body_then_exit {cfg : Cfg} {done : Bool} {failed : Option Nat} {s : St} (h : Reach cfg done failed s)
+    (i : Nat) (hr : running s i = true) (sg : Sig) (hsg : sg = .term ∨ sg = .int) :
+    let s' := runAlone cfg i 10 (act cfg s (.signal i sg))
+    s'.sh.failed = some 1 ∧ s'.sh.done = false ∧ (s'.procs i).dead = some (.code 1) ∧ s'.sh.lock = none ∧ s'.sh.pid = none := by
+  have inv := inv_reach h
+  simp only [running, Bool.and_eq_true, decide_eq_true_eq] at hr
+  obtain ⟨⟨⟨hlt, ha⟩, hb⟩, hh⟩ := hr
+  have hdead : (s.procs i).dead = none := by revert ha; simp only [Proc.alive]; split <;> simp_all
+  have hhnd : (s.procs i).hnd = none := by revert hh; simp only [noHandler]; split <;> simp_all
+  obtain ⟨k, hloc⟩ : ∃ k, (s.procs i).loc = .body k := by
+    revert hb; simp only [inBody]; split <;> simp_all
+  have hlock := inv.held i hlt hdead hhnd (by simp [hloc, Loc.holding])
+  have hnd := inv.notDone i hlt hdead hhnd (by simp [hloc, Loc.critical])
+  have hH := inv.handlers i hlt
+  simp only [hloc, Loc.hasReg, Loc.hasTerm, Loc.handled, forall_const] at hH
+  have hnc := noClean_reach h i hlt hhnd (by simp [hloc, Loc.failing])
+  intro s'
+  have key : ∃ c p1, deliver i s.sh (s.procs i) sg = (s.sh, p1) ∧ p1.dead = none ∧ p1.loc = .body k ∧
+      p1.hnd = some (.write, c) ∧ p1.reg = true ∧ p1.cleaned = false := by
+    rcases hsg with rfl | rfl
+    · refine ⟨15, (deliver i s.sh (s.procs i) .term).2, ?_⟩
+      simp [deliver, hdead, hH.2.1, hloc, hH.1, hnc]
+    · refine ⟨2, (deliver i s.sh (s.procs i) .int).2, ?_⟩
+      simp [deliver, hdead, hH.2.2, hloc, hH.1, hnc]
+  obtain ⟨c, p1, hc, h1, h2, h3, h4, h5⟩ := key
+  have hs1 : act cfg s (.signal i sg) = { s with procs := upd s.procs i p1 } := by
+    simp [act, hlt, hc]
+  have := solo_signal cfg i s.sh p1 k c h1 h2 h3 hlock hnd h4 h5
+  have hs' : s' = runAlone cfg i 10 { s with procs := upd s.procs i p1 } := by simp only [s', hs1]
+  rw [hs', runAlone_eq cfg i 10 { s with procs := upd s.procs i p1 } hlt]
+  obtain ⟨t1, t2, t3, t4, t5⟩ := this
+  simp [upd]
+  exact ⟨t1, t2, t5, t3, t4⟩
+
 /-- **last sentence, on the repaired source**: a job process that ended on its own (exited, with
     whatever status, without ever receiving SIGTERM/SIGINT) leaves no process-id file behind: the pid
     file never names it. -/
@@ -124,5 +190,48 @@ theorem own_exit_leaves_no_pid {cfg : Cfg} (hc : cfg.unregOnSuccess = false) {do
     cases (s.procs q).loc <;> simp [Loc.atRmPid, Loc.isFinNone]
     rename_i c' st; cases c' <;> simp
   · simp
+
+/-- **last sentence fails on the source as it is today (F7)**: a launch through the scheduler protocol,
+    an undisturbed successful run, and the pid file still names the finished process. -/
+theorem own_exit_leaves_pid_today :
+    let s := run current (St.init false none)
+      ([.lLock 0, .lSpawn 0 .ok 0, .lWrite 0, .lRelease 0] ++ List.replicate 20 (.step 0))
+    endedOnOwn (s.procs 0) = true ∧ s.sh.done = true ∧ s.sh.pid = some 0 := by
+  decide
+
+
+/-! ### non-vacuity: the hypotheses are satisfiable on concrete non-trivial histories -/
+
+/-- two launches by hand; process 0 reaches the body after 9 steps, process 1 is blocked on the lock -/
+def raceTrace : List Act := [.spawn .ok 2, .spawn .exc 1] ++ List.replicate 9 (.step 0) ++ List.replicate 7 (.step 1)
+
+example : Reach current false (some 1) (run current (St.init false (some 1)) raceTrace) := ⟨raceTrace, rfl⟩
+example : running (run current (St.init false (some 1)) raceTrace) 0 = true
+    ∧ running (run current (St.init false (some 1)) raceTrace) 1 = false
+    ∧ ((run current (St.init false (some 1)) raceTrace).procs 1).loc = .tryLock
+    ∧ bodiesRunning (run current (St.init false (some 1)) raceTrace) = 1 := by decide
+
+/-- SIGTERM inside the body (hypothesis `sigInBody` of `signal_in_body_marks_failed`), then the handler writes -/
+example : ((run current (St.init false none) (raceTrace ++ [.signal 0 .term])).procs 0).sigInBody = true := by decide
+example : let s := run current (St.init false none) (raceTrace ++ [.signal 0 .term, .step 0])
+    (s.procs 0).wroteFailed = some s.sh.epoch ∧ s.sh.failed = some 15 := by decide
+
+/-- a process that ended on its own, on the repaired source: launched through the scheduler protocol, the
+    pid file is gone (hypotheses of `own_exit_leaves_no_pid`); and one that failed on its own -/
+def launchedTrace (o : Outcome) : List Act :=
+  [.lLock 0, .lSpawn 0 o 1, .lWrite 0, .lRelease 0] ++ List.replicate 25 (.step 0)
+
+example : let s := run repaired (St.init false none) (launchedTrace .ok)
+    endedOnOwn (s.procs 0) = true ∧ s.sh.done = true ∧ s.sh.pid = none := by decide
+example : let s := run repaired (St.init false none) (launchedTrace (.exit 3))
+    endedOnOwn (s.procs 0) = true ∧ s.sh.done = false ∧ s.sh.failed = some 3 ∧ s.sh.pid = none := by decide
+
+/-- a quiescent reachable state (hypotheses of `relaunch_runs_iff_no_done`): the fresh directory -/
+example : (∀ i, i < (St.init false none).n → ((St.init false none).procs i).dead ≠ none)
+    ∧ (∀ l, ((St.init false none).ls l).holds = false) := by simp [St.init, LState.holds]
+
+/-- a success marker that was written (hypothesis of `done_implies_completed`) -/
+example : let s := run current (St.init false none) ([.spawn .ok 0] ++ List.replicate 20 (.step 0))
+    s.sh.done = true ∧ (s.procs 0).touched = true ∧ (s.procs 0).completed = true := by decide
 
 end XpmVerif.C10
